@@ -40,12 +40,13 @@ VALUATIONS = [
     {"A": 2, "B": 2, "C": 2, "D": 2, "A$": "ABC", "B$": "C", "C$": "BC"},
     {"A": 0.5, "B": 2.5, "C": 1, "D": -1.5, "A$": "XY", "B$": "Y", "C$": "X"},
     {"A": 9, "B": -1, "C": 0, "D": 6, "A$": "12", "B$": "2", "C$": "1"},
+    {"A": -2.5, "B": -0.5, "C": 1.5, "D": 3, "A$": "Z", "B$": "ZZ", "C$": "AZ"},
 ]
 
-NUM_CONTEXTS = ["assign", "if_else", "if_noelse", "print", "for_start", "for_limit", "for_step", "sub_read",
+NUM_CONTEXTS = ["assign", "self_assign", "if_else", "if_noelse", "print", "for_start", "for_limit", "for_step", "sub_read",
                 "sub_write", "on"]
 COND_CONTEXTS = ["if_else", "if_noelse"]
-STR_CONTEXTS = ["assign_s", "print_s", "if_s", "if_s_noelse"]
+STR_CONTEXTS = ["assign_s", "self_assign_s", "print_s", "if_s", "if_s_noelse"]
 CONVERTIBLE = {"INT", "VAL", "STR$", "HEX$", "INSTR", "STRING$", "INKEY$", "BUTTON", "JOYSTK", "POINT"}
 
 
@@ -70,6 +71,11 @@ def block(ctx, e, base, rv, v_e):
     R = ("var", rv)
     if ctx == "assign":
         return [(base + 1, [("let", R, e, False)])]
+    if ctx == "self_assign":
+        # the target is one of the expression's own variables (a by-reference result parameter may alias an operand)
+        return [(base + 1, [("let", ("var", "A"), e, False), ("let", R, ("var", "A"), False)])]
+    if ctx == "self_assign_s":
+        return [(base + 1, [("let", ("var", "A$"), e, False), ("let", ("var", rv + "$"), ("var", "A$"), False)])]
     if ctx == "assign_s":
         return [(base + 1, [("let", ("var", rv + "$"), e, False)])]
     if ctx == "if_else":
@@ -399,6 +405,7 @@ def cases(tier, seed):
         for o in num_ops:
             e = ("fn", f, [o])
             yield {"ctx": "assign", "e": e}
+            yield {"ctx": "self_assign", "e": e}
             yield {"ctx": "assign", "e": ("bin", "+", e, X.num(1))}
             for g in f1:
                 yield {"ctx": "assign", "e": ("fn", g, [e])}
